@@ -60,7 +60,7 @@ def lane_setup():
     from basilisp.lang import vector as vec
     _st["vec"] = vec
     for n in ("cons", "first", "rest", "next", "seq", "count", "nth", "map", "filter", "concat", "iterate",
-              "iterator-seq", "realized?", "take", "doall", "vec", "drop", "take-while", "keep", "remove", "mapcat",
+              "iterator-seq", "realized?", "take", "doall", "vec", "drop", "take-while", "keep", "remove", "mapcat", "with-meta",
               "interleave", "map-indexed", "keep-indexed", "drop-while", "take-nth", "partition", "partition-all",
               "partition-by", "distinct", "dedupe", "interpose", "cycle", "drop-last", "flatten", "repeatedly"):
         _fns[n] = common.core_fn(n)
@@ -137,7 +137,8 @@ def gen(rng, tier, index):
         consumers.append(ops)
     # how each consumer reaches the shared head: directly, or through its OWN (lazy-seq head) wrapper -
     # then the shared cells are realized by the wrapper's walk over nested lazy seqs, not by seq()
-    via = [rng.choice(["direct", "direct", "wrap"]) for _ in consumers] if rng.random() < 0.4 else ["direct"] * len(consumers)
+    # or through (with-meta head m), which - as in Clojure - realizes the head cell and must SHARE every cell with the original
+    via = [rng.choice(["direct", "direct", "wrap", "meta"]) for _ in consumers] if rng.random() < 0.45 else ["direct"] * len(consumers)
     return {"n": n, "source": source, "cells": cells, "pipeline": pipeline, "consumers": consumers,
             "faults": faults, "via": via}
 
@@ -184,9 +185,9 @@ def shrink(workload):
         w = copy.deepcopy(workload)
         w["source"] = "lazy"
         yield w
-    if any(v == "wrap" for v in workload.get("via", [])):
+    if any(v != "direct" for v in workload.get("via", [])):
         for i, v in enumerate(workload["via"]):
-            if v == "wrap":
+            if v != "direct":
                 w = copy.deepcopy(workload)
                 w["via"][i] = "direct"
                 yield w
@@ -468,13 +469,29 @@ def run(workload, k):
     ops_log = []
 
     via = workload.get("via") or ["direct"] * len(workload["consumers"])
-    heads = [head if v == "direct" else lseq.LazySeq(lambda: head) for v in via]
+    heads = [lseq.LazySeq(lambda: head) if v == "wrap" else head for v in via]
+    from basilisp.lang import map as lmap
 
     def consumer(ci, script):
         def body():
             cur = heads[ci]     # the real cursor
             c = 0               # reference cursor (index into Rf); len(Rf) = exhausted
             L = len(Rf)
+            if via[ci] == "meta":
+                st["demand"] = max(st["demand"], 0)      # attaching metadata realizes the head cell (LazySeq.with_meta)
+                for _attempt in range(4):
+                    try:
+                        cur = _fns["with-meta"](cur, lmap.map({"consumer": ci}))
+                        break
+                    except Boom:
+                        continue                         # an injected producer failure: the next attempt re-runs it
+                    except P._k.SimAbort:
+                        raise
+                    except BaseException as e:  # noqa: BLE001
+                        if k.aborting:
+                            raise P._k.SimAbort()
+                        viol(f"{ID}/with-meta-raised:{type(e).__name__}", {"consumer": ci, "exc": repr(e)[:300]})
+                        return
             for oi, op in enumerate(script):
                 kind = op[0]
                 if kind in ("first", "seq", "rest", "realized?"):
